@@ -3,6 +3,7 @@
 package main
 
 import (
+	"bufio"
 	"encoding/json"
 	"flag"
 	"fmt"
@@ -17,7 +18,34 @@ func main() {
 	flag.BoolVar(&tr.TypeCheck, "typecheck", false, "")
 	flag.BoolVar(&tr.SkipInterfaces, "skip-interfaces", false, "")
 	dir := flag.String("dir", ".", "")
+	serve := flag.Bool("serve", false, "read requests {file, content, only, pattern} as JSON lines, answer with one JSON line each")
 	flag.Parse()
+	if *serve {
+		in := bufio.NewReaderSize(os.Stdin, 1<<22)
+		out := json.NewEncoder(os.Stdout)
+		for {
+			line, err := in.ReadBytes('\n')
+			if err != nil {
+				return
+			}
+			var req struct {
+				File    string `json:"file"`
+				Content string `json:"content"`
+				Only    string `json:"only"`
+				Pattern string `json:"pattern"`
+			}
+			if json.Unmarshal(line, &req) != nil {
+				out.Encode(map[string]string{"error": "bad request"})
+				continue
+			}
+			pkgs, err := goose.VerifTranslateOverlay(tr, *dir, map[string][]byte{req.File: []byte(req.Content)}, req.Only, req.Pattern)
+			if err != nil {
+				out.Encode(map[string]string{"error": err.Error()})
+				continue
+			}
+			out.Encode(pkgs)
+		}
+	}
 	pkgs, err := goose.VerifTranslate(tr, *dir, flag.Args()...)
 	if err != nil {
 		fmt.Fprintln(os.Stderr, err)
